@@ -17,6 +17,7 @@ import enum
 import math
 import numbers
 import sys
+import types
 
 from .index import norm
 
@@ -171,6 +172,9 @@ TYPES = {
     "Sized": collections.abc.Sized, "Iterable": collections.abc.Iterable, "Iterator": collections.abc.Iterator, "Sequence": collections.abc.Sequence, "Mapping": collections.abc.Mapping,
     "Collection": collections.abc.Collection, "Hashable": collections.abc.Hashable,
     "BaseException": BaseException, "Exception": Exception, "NoneType": type(None), "enum.Enum": enum.Enum, "Enum": enum.Enum,
+    "GeneratorType": types.GeneratorType, "types.GeneratorType": types.GeneratorType, "Generator": collections.abc.Generator, "Container": collections.abc.Container,
+    "Reversible": collections.abc.Reversible, "MutableSequence": collections.abc.MutableSequence, "MutableMapping": collections.abc.MutableMapping, "Set": collections.abc.Set,
+    "FunctionType": types.FunctionType, "types.FunctionType": types.FunctionType, "ModuleType": types.ModuleType,
 }
 
 PURE = {
@@ -646,12 +650,20 @@ class Interp:
                 self._bind(t, v, env)
         elif isinstance(target, ast.Attribute) and isinstance(env.get(norm(target.value)), Obj):
             env[norm(target.value)].fields[target.attr] = value
+        elif isinstance(target, ast.Attribute) and isinstance(target.value, ast.Attribute) and isinstance(self._try_ev(target.value, env), Obj):
+            self._try_ev(target.value, env).fields[target.attr] = value
         elif isinstance(target, ast.Subscript) and isinstance(env.get(norm(target.value)), (list, dict)):
             _guard(env[norm(target.value)].__setitem__, self.ev(target.slice, env), value)
         else:
             env[norm(target)] = value
             if self.on_store is not None:
                 self.on_store(norm(target), value)
+
+    def _try_ev(self, e, env):
+        try:
+            return self.ev(e, env)
+        except (Undecided, Raises):
+            return None
 
     def block(self, stmts, env, mod=None):
         for s in stmts:
